@@ -304,6 +304,7 @@ Definition tol : Q := Qmake 1 (Z.to_pos (2 ^ 40)).
    covers the operation counts, at most a few hundred); scale = 0 demands equality.
    Non-finite values must agree exactly in kind. *)
 Definition close (scale : Q) (impl model : fval) : bool :=
+  if Qlt_bool scale 0 then true else       (* scale < 0: no finite bound exists (see mom_scales) *)
   match impl, model with
   | Fin a, Fin b => Qle_bool (Qabs (a - b)) (tol * scale)
   | PInf, PInf | NInf, NInf | NaN, NaN => true
@@ -395,17 +396,36 @@ Definition dao_check_src ny nx mask gk s2x s2y Kx Ky im conv (s : Z * Z * list f
 Section MomScales.
   Variables (ny nx : nat) (a : img).
   Variable pe : Q.                          (* bound on the absolute error of one pixel / 2^-53 *)
+  (* A quotient x / y whose denominator lies within ITS OWN error bound of 0 has no finite error
+     bound (exactly 0/0 = NaN may be computed as tiny/tiny, any value): its scale is -1 =
+     unconstrained, and it is counted ([case_unambiguous]).  Otherwise the denominator enters the
+     scale diminished by its error bound.  This concerns M00 (inexact sky only) and mu_sum (all the
+     weight in one pixel: mu_sum = 0 exactly, e.g. 4e-31 after the rounding of the centroid). *)
   Definition mom_scales : list Q :=
     let n := qn (ny * nx) in let l := qn (ny + nx) in
     let m := m00 ny nx a in
-    let sc := 8 * n * pe * l / m + l in
-    let smu := l * l * (32 * n * pe / m + 2 * n) in
-    [ 4 * n * pe; 4 * n * pe * l; 4 * n * pe * l; sc; sc; 2 * smu; 2 * smu; smu;
-      16 * smu / mu_sum ny nx a + 4 ].
+    let em := tol * (4 * n * pe) in                      (* error bound of M00 *)
+    if negb (Qeq_bool pe 0) && Qle_bool (Qabs m) em
+    then [ 4 * n * pe; 4 * n * pe * l; 4 * n * pe * l; -1; -1; -1; -1; -1; -1 ]
+    else
+      let m' := Qabs m - em in
+      let sc := 8 * n * pe * l / m' + l in
+      let smu := l * l * (32 * n * pe / m' + 2 * n) in
+      let ems := tol * (2 * smu) in                      (* error bound of mu_sum *)
+      let ms := Qabs (mu_sum ny nx a) in
+      [ 4 * n * pe; 4 * n * pe * l; 4 * n * pe * l; sc; sc; 2 * smu; 2 * smu; smu;
+        if Qle_bool ms ems then -1 else 16 * smu / (ms - ems) + 4 ].
+  Definition mom_unconstrained : bool := existsb (fun q => Qlt_bool q 0) mom_scales.
 End MomScales.
 
 Fixpoint is_pow2 (p : positive) : bool :=
   match p with xH => true | xO p' => is_pow2 p' | xI _ => false end.
+
+(* a scale built on an unconstrained one is unconstrained *)
+Definition sadd (sc extra : Q) : Q := if Qlt_bool sc 0 then -1 else sc + extra.
+(* the sky (hence every cutout pixel) is exact when the mean is a short dyadic rational *)
+Definition iraf_pe (d : img) (sk : Q) : Q :=
+  if is_pow2 (Qden (Qred sk)) then 0 else imax (absimg d) + Qabs sk + 1.
 
 Definition iraf_check_src ny nx mask im conv (s : Z * Z * list fval) : bool :=
   let '(yp, xp, impl) := s in
@@ -413,13 +433,12 @@ Definition iraf_check_src ny nx mask im conv (s : Z * Z * list fval) : bool :=
   let cv := cutout conv ny nx yp xp in
   let a := iraf_cutout ny nx mask d cv in
   let sk := sky ny nx mask d cv in
-  (* the sky (hence every cutout pixel) is exact when the mean is a short dyadic rational *)
-  let pe := if is_pow2 (Qden (Qred sk)) then 0 else imax (absimg d) + Qabs sk + 1 in
+  let pe := iraf_pe d sk in
   let ms := mom_scales ny nx a pe in
   let n := qn (ny * nx) in
   let sc := nth 3 ms 0 in
   let scales := [pe; 0; 2 * pe; 4 * n * pe] ++ ms
-                ++ [sc + qn (nx + ny) + Qabs (inject_Z xp); sc + qn (nx + ny) + Qabs (inject_Z yp)] in
+                ++ [sadd sc (qn (nx + ny) + Qabs (inject_Z xp)); sadd sc (qn (nx + ny) + Qabs (inject_Z yp))] in
   all3 close scales impl (iraf_stats ny nx mask im conv yp xp).
 
 Definition sf_check_src ky kx im (s : Z * Z * list fval) : bool :=
@@ -429,7 +448,7 @@ Definition sf_check_src ky kx im (s : Z * Z * list fval) : bool :=
   let ms := mom_scales sny snx a 0 in
   let sc := nth 3 ms 0 in
   let scales := [0; 0; 0; 0] ++ ms
-                ++ [sc + Qabs (inject_Z xp) + qn kx; sc + Qabs (inject_Z yp) + qn ky] in
+                ++ [sadd sc (Qabs (inject_Z xp) + qn kx); sadd sc (Qabs (inject_Z yp) + qn ky)] in
   all3 close scales impl (sf_stats ky kx im yp xp).
 
 Inductive case :=
@@ -448,7 +467,8 @@ Definition check_case (cs : case) : bool :=
   | CSf ky kx im srcs => forallb (sf_check_src ky kx im) srcs
   end.
 
-(* true when some DAO source of the case has a rounding-decided branch (statistics only) *)
+(* false when some source of the case has a rounding-decided branch / an unconstrained quotient
+   (statistics only) *)
 Definition case_unambiguous (cs : case) : bool :=
   match cs with
   | CDao ny nx mask gk s2x s2y im conv srcs =>
@@ -458,7 +478,17 @@ Definition case_unambiguous (cs : case) : bool :=
                  let '(yp, xp, _) := s in
                  negb (snd (dao_eval ny nx mask gk s2x s2y Kx Ky (cutout im ny nx yp xp)
                                      (cutout conv ny nx yp xp) yp xp))) srcs
-  | _ => true
+  | CIraf ny nx mask im conv srcs =>
+      forallb (fun s : Z * Z * list fval =>
+                 let '(yp, xp, _) := s in
+                 let d := cutout im ny nx yp xp in
+                 let cv := cutout conv ny nx yp xp in
+                 negb (mom_unconstrained ny nx (iraf_cutout ny nx mask d cv)
+                                         (iraf_pe d (sky ny nx mask d cv)))) srcs
+  | CSf ky kx im srcs =>
+      forallb (fun s : Z * Z * list fval =>
+                 let '(yp, xp, _) := s in
+                 negb (mom_unconstrained (sf_ny ky im yp) (sf_nx kx im xp) (sf_cutout ky kx im yp xp) 0)) srcs
   end.
 
 Definition model_out (cs : case) : list (list fval) :=
